@@ -420,6 +420,10 @@ class _Proxy:
     # -- reductions with IEEE semantics ----------------------------------------
     def _reduce(self, x, op2, initial, axis):
         x = self.asarray(x)
+        if x.dtype != object and x.dtype.kind in "iub" and not isinstance(initial, (float, SymFloat)):
+            f = _np.max if op2 is max2 else _np.min
+            kw = {} if initial is None else {"initial": initial}
+            return f(x, axis=axis, **kw)
         if axis is not None and x.ndim > 1:
             x = _np.moveaxis(x, axis, 0)
             out = _np.empty(x.shape[1:], dtype=object)
